@@ -57,6 +57,10 @@ def options():
     o['policy_mid'] = (ANY, {'policy_uri': 'https://example.org/' + 'p' * 180}, lambda ps: _has(ps, 26, b'https://example.org/' + b'p' * 180))
     o['notation_long'] = (ANY, {'notation': {'long@example.org': 'v' * 300}},
                           lambda ps: _has(ps, 20, b'\x80\x00\x00\x00\x00\x10\x01\x2clong@example.org' + b'v' * 300))
+    # subpackets of 8384..16319 octets (two-octet or five-octet subpacket length, both legal) and above 16319 (five-octet only)
+    o['notation_huge'] = (ANY, {'notation': {'huge@example.org': 'h' * 9000}},
+                          lambda ps: _has(ps, 20, b'\x80\x00\x00\x00\x00\x10' + (9000).to_bytes(2, 'big') + b'huge@example.org' + b'h' * 9000))
+    o['policy_giant'] = (ANY, {'policy_uri': 'https://example.org/' + 'g' * 17000}, lambda ps: _has(ps, 26, b'https://example.org/' + b'g' * 17000))
     o['revocable_false'] = (ANY - {'revoker'}, {'revocable': False}, lambda ps: _has(ps, 7, b'\x00'))
     o['no_issuer_fpr'] = (ANY, {'include_issuer_fingerprint': False},
                           lambda ps: not [sp for sp in ps['hashed_sp'] + ps['unhashed_sp'] if sp['type'] == 33])
@@ -389,6 +393,8 @@ class Prop(object):
             'notation_utf8': wire.subpacket(20, b'\x80\x00\x00\x00' + len('n\u00f6te@example.org'.encode()).to_bytes(2, 'big') +
                                             len('gr\u00fc\u00dfe \u4e16\u754c'.encode()).to_bytes(2, 'big') + 'n\u00f6te@example.org'.encode() + 'gr\u00fc\u00dfe \u4e16\u754c'.encode()),
             'policy_mid': wire.subpacket(26, b'https://example.org/' + b'p' * 180),
+            'notation_huge': wire.subpacket(20, b'\x80\x00\x00\x00\x00\x10' + (9000).to_bytes(2, 'big') + b'huge@example.org' + b'h' * 9000),
+            'policy_giant': wire.subpacket(26, b'https://example.org/' + b'g' * 17000),
             'notation_long': wire.subpacket(20, b'\x80\x00\x00\x00\x00\x10\x01\x2clong@example.org' + b'v' * 300),
             'reason_utf8': wire.subpacket(29, b'\x03' + 'zur\u00fcckgezogen \u2014 \u9000\u5f79'.encode()),
             'revocable_false': wire.subpacket(7, b'\x00'),
